@@ -5,6 +5,7 @@ This module contains methods for exporting Kern files.
 """
 import math
 from collections import defaultdict
+from fractions import Fraction
 
 import numpy
 
@@ -198,13 +199,20 @@ class KernExporter(object):
             if "dots" in symbolic_duration.keys()
             else ""
         )
-        if "actual_notes" in symbolic_duration.keys() and "normal_notes":
-            kern_base = (
-                int(kern_base)
-                * symbolic_duration["actual_notes"]
-                / symbolic_duration["normal_notes"]
+        if (
+            "actual_notes" in symbolic_duration.keys()
+            and "normal_notes" in symbolic_duration.keys()
+        ):
+            # reciprocal duration of the tuplet member, e.g. 12 for a triplet eighth;
+            # written as a rational "n%d" when it is not a whole number
+            recip = Fraction(
+                int(kern_base) * symbolic_duration["actual_notes"],
+                symbolic_duration["normal_notes"],
             )
-            kern_base = str(kern_base)
+            if recip.denominator == 1:
+                kern_base = str(recip.numerator)
+            else:
+                kern_base = "{}%{}".format(recip.numerator, recip.denominator)
         return kern_base + dots
 
     def duration_to_kern(self, element: spt.GenericNote) -> str:
